@@ -111,6 +111,8 @@ def rand_type(rng, d, generics, leaves=LEAF_PRIMS, users=USER, generic_keys=0.04
             k = ir.simple(rng.choice(generics))
         else:
             k = rng.choice([ir.special('String'), ir.special('String'), ir.special('U32'), ir.special('I32'), ir.special('Char'), ir.simple(rng.choice(users)), sub()])
+            if k['k'] == 'simple' and k['id'] in generics:
+                k = ir.special('String')
         return ir.special('HashMap', k, sub())
     return ir.generic(rng.choice(users), [sub() for _ in range(rng.choice([1, 1, 2, 3]))])
 
